@@ -44,3 +44,25 @@ Lemma tie_parse_pkm : forall p, parse_pkm p = src_parse_pkm p.
 Proof. reflexivity. Qed.
 Lemma tie_write_pkm : forall m, write_pkm m = src_write_pkm m.
 Proof. reflexivity. Qed.
+
+(* the checksum theorems for the loop as it reads in the current source, over the table the running code builds: for every byte string the fold of the translated
+   loop body over the translated constructor's table is bit-serial division by the polynomial, and fits 32 bits *)
+From VProofs Require Import CrcProofs.
+Lemma src_crc_calc_bitserial : forall v, Forall (fun b => 0 <= b < 256) v ->
+  fold_left (src_crc_step py_crc_table) v 0 = fold_left (crc_bits 8) v 0 /\ 0 <= fold_left (src_crc_step py_crc_table) v 0 < 2 ^ 32.
+Proof.
+  intros v Hv. rewrite py_crc_table_is_model_table.
+  assert (E: fold_left (src_crc_step crc_table) v 0 = crc_calc v) by reflexivity.
+  rewrite E. split; [apply crc_calc_is_bitserial; exact Hv|apply crc_calc_u32; exact Hv].
+Qed.
+(* the constructor's loop: entry i of the table is eight translated bit steps from (0, i) *)
+Fixpoint iter_bit_step (k : nat) (cn : Z * Z) : Z * Z := match k with O => cn | S k' => iter_bit_step k' (src_crc_bit_step (fst cn) (snd cn)) end.
+Lemma iter_bit_step_crc_bits k : forall crc n, fst (iter_bit_step k (crc, n)) = crc_bits k crc n.
+Proof.
+  induction k as [|k IH]; intros crc n; [reflexivity|].
+  cbn [iter_bit_step fst snd]. rewrite (surjective_pairing (src_crc_bit_step crc n)), IH. symmetry. apply tie_crc_bit_step.
+Qed.
+Lemma src_crc_table_built : py_crc_table = map (fun i => fst (iter_bit_step 8 (0, Z.of_nat i))) (seq 0 256).
+Proof.
+  rewrite py_crc_table_is_model_table. unfold crc_table. apply map_ext. intros i. symmetry. apply iter_bit_step_crc_bits.
+Qed.
